@@ -3,7 +3,7 @@
 #   demo passes on the clean tree, fails with the patch; cedar-go's own suite passes with the patch.
 # The demo's target directory is read from its header comment ("dir: <relative dir>") or given as $3.
 id=$1; m=$2
-wt=/tmp/seed/$id; out=${SEEDOUT:-/tmp/seed}/$id.out
+wt=${WTROOT:-/tmp/seed}/$id; out=${SEEDOUT:-/tmp/seed}/$id.out
 export GOFLAGS=-mod=mod GOPROXY=off GOSUMDB=off GOTOOLCHAIN=local
 demo=$out/${m}_demo_test.go
 dir=${3:-$(grep -m1 -oiE '(dir|directory|place[d]? (it )?(in|at|under))[^A-Za-z0-9_./]*[`"]?[A-Za-z0-9_./-]+' $demo | grep -oE '[A-Za-z0-9_./-]+$')}
